@@ -38,6 +38,13 @@ void generate(Rng& r, Workload& w, int tier) {
     int part = int(r.below(P_N));
     w.cfg = {part, int64_t(r.below(5)), int64_t(r.below(4))};
     int n = int(r.range(1, tier ? 200 : 50));
+    // a splay tree has no depth bound: a long monotone history (here: one key inserted many times into a
+    // multiset) makes a spine of that length, which the traversals and clear() must cope with
+    if ((part == P_SPLAY_MULTI || part == P_SPLAY_MULTI_TRACKED) && r.chance(1, 6)) {
+        int run = int(r.range(65, tier ? 300 : 100));
+        int64_t k = int64_t(r.below(KEYS));
+        for (int i = 0; i < run; ++i) w.ops.push_back({S_INSERT, k, 0});
+    }
     for (int i = 0; i < n; ++i) {
         int64_t code;
         const bool lru = part <= P_LRU_MAP || part >= P_LRU_SET_HEAP;
